@@ -483,6 +483,12 @@ var orderTemplates = []struct {
 	want []string
 }{
 	{"x = 1\nfunc bump() {\nx = 100\nreturn probe(5)\n}\nx += bump()\nprobe(x)", []string{"(i 5)", "(i 6)"}},
+	// a call through a function value that is nil fails as a call: its arguments have been evaluated, once, in order
+	{"try {\nwantsnil(probe(1), probe(2))\n} catch e {\nprobe(-1)\n}", []string{"(i 1)", "(i 2)", "(i -1)"}},
+	{"try {\nwantsnilv(probe(1), probe(2), probe(3))\n} catch e {\nprobe(-1)\n}", []string{"(i 1)", "(i 2)", "(i 3)", "(i -1)"}},
+	{"x = wantsnil(probe(1), probe(2)) ?? probe(3)\nprobe(x)", []string{"(i 1)", "(i 2)", "(i 3)", "(i 3)"}},
+	{"go wantsnil(probe(1), probe(2))\nprobe(3)", []string{"(i 1)", "(i 2)", "(i 3)"}},
+	{"l = [wantsnil]\ntry {\nl[0](probe(1), probe(2))\n} catch e {\nprobe(-1)\n}", []string{"(i 1)", "(i 2)", "(i -1)"}},
 	{"x = 10\nfunc bump() {\nx = 100\nreturn probe(1)\n}\nx -= bump()\nprobe(x)", []string{"(i 1)", "(i 9)"}},
 	{"x = 2\nfunc bump() {\nx = 100\nreturn probe(3)\n}\nx *= bump()\nprobe(x)", []string{"(i 3)", "(i 6)"}},
 	{"try {\nnosuch += probe(1)\n} catch e {\nprobe(-1)\n}", []string{"(i -1)"}},
